@@ -112,9 +112,16 @@ pub struct NetPlan {
     pub drop_idx: [BTreeSet<u64>; 2],
     /// permanent blackhole per direction after this many datagrams in that direction
     pub blackhole_after: [Option<u64>; 2],
+    /// what a blackholed datagram turns into: 0 nothing (dropped), 1 the same datagram with
+    /// flipped bits (fails authentication), 2 a replay of the last datagram that got through
+    /// in that direction (a duplicate). In all three cases nothing usable arrives any more.
+    pub blackhole_kind: u8,
     pub mtu: u16,
     /// client rebind schedule: (time_us, client index)
     pub rebinds: Vec<(u64, usize)>,
+    /// one-way delay of the path a client uses after its k-th rebind, in permille of
+    /// `delay_us` (index k-1; missing = 1000): migration to a path with another RTT
+    pub rebind_delay_permille: Vec<u64>,
 }
 
 impl NetPlan {
@@ -126,8 +133,10 @@ impl NetPlan {
             phases: vec![],
             drop_idx: [BTreeSet::new(), BTreeSet::new()],
             blackhole_after: [None, None],
+            blackhole_kind: 0,
             mtu: 9200,
             rebinds: vec![],
+            rebind_delay_permille: vec![],
         }
     }
     pub fn phase_at(&self, t: u64) -> Option<&Phase> {
@@ -154,6 +163,9 @@ pub enum End {
     Finish,
     /// reset(code) once `at` bytes have been written
     Reset { at: u64, code: u64 },
+    /// reset(code) this long after the task started, wherever the stream is by then (blocked
+    /// on credit, waiting for buffer space, waiting for the final acknowledgement ...)
+    ResetAfter { delay_us: u64, code: u64 },
 }
 
 #[derive(Clone, Debug)]
@@ -372,6 +384,11 @@ pub fn gen_flow(r: &mut Rng, max_len: u64, hostile_app: bool) -> FlowPlan {
     let end = if hostile_app && r.chance(1, 5) {
         End::Reset {
             at: r.range(0, len),
+            code: r.range(0, 1000),
+        }
+    } else if hostile_app && r.chance(1, 6) {
+        End::ResetAfter {
+            delay_us: *r.pick(&[0u64, 1_000, 20_000, 100_000, 400_000, 1_500_000, 4_000_000]) + r.range(0, 50_000),
             code: r.range(0, 1000),
         }
     } else {
